@@ -105,7 +105,8 @@ def abstract(bindir, texts):
 
 
 def run_harness(bindir, cases, timeout_ms=4000, stop_after_hangs=6):
-    """One result per case: {"steps":[..]} | {"panic":..} | {"timeout":True} | {"crash":rc} | {"skipped":True}.
+    """(all cases of one call have the same mode: memfs -> bin hostdrive, vfs -> bin vfsdrive)
+    One result per case: {"steps":[..]} | {"panic":..} | {"timeout":True} | {"crash":rc} | {"skipped":True}.
     The process is restarted after a timeout (it exits) or an abort (stack overflow); after
     `stop_after_hangs` such cases the remaining ones are skipped (the violations are already there)."""
     res = []
@@ -115,8 +116,9 @@ def run_harness(bindir, cases, timeout_ms=4000, stop_after_hangs=6):
             res += [{"skipped": True}] * (len(cases) - i)
             break
         batch = cases[i:]
+        exe = os.path.join(bindir, "vfsdrive") if batch[0].get("mode") == "vfs" else hostdrive(bindir)
         try:
-            p = subprocess.run([hostdrive(bindir), "run", str(timeout_ms)], input=json.dumps(batch),
+            p = subprocess.run([exe, "run", str(timeout_ms)], input=json.dumps(batch),
                                stdout=subprocess.PIPE, stderr=subprocess.PIPE, text=True,
                                timeout=120 + len(batch) * (timeout_ms / 1000.0 + 0.5))
             out, rc = p.stdout, p.returncode
@@ -494,3 +496,78 @@ def first_diff(a, b):
         if a.get(k) != b.get(k):
             return k, a.get(k), b.get(k)
     return None
+
+
+# ----------------------------------------------------------------------------- the real Server (lspdrive, C12)
+
+LSP_TMP = os.path.join(vlib.CACHE, "host", "lspdrive")
+
+
+def lsp_script(case, files_per_step):
+    """lspdrive session for a history of touches: didOpen for the first touch of a path, didChange afterwards;
+    after every notification a documentSymbol request for every file of the reference workspace at that step
+    (a request for a document the server has never seen makes from_proto.rs unwrap a None and the main loop exit:
+    not this property's matter)."""
+    steps, seen, marks = [], [], []
+    for k, (kind, p, t) in enumerate(case["history"]):
+        steps.append({"open": p, "text": t} if p not in seen else {"change": p, "text": t})
+        if p not in seen:
+            seen.append(p)
+        steps.append({"wait_idle": True})
+        req = {}
+        for q in sorted(files_per_step[k] if k < len(files_per_step) else []):
+            req[q] = len(steps)
+            steps.append({"request": "documentSymbol", "path": q, "line": 0, "character": 0})
+        steps.append({"wait_idle": True})
+        marks.append(req)
+    return {"files_on_disk": case["files"], "mode": "settled", "steps": steps,
+            "watchdog_ms": 10000, "quiet_ms": 300, "hard_ms": 60000}, marks
+
+
+def run_lsp(bindir, script):
+    os.makedirs(LSP_TMP, exist_ok=True)
+    try:
+        p = subprocess.run([os.path.join(bindir, "lspdrive")], input=json.dumps(script), stdout=subprocess.PIPE,
+                           stderr=subprocess.PIPE, text=True, timeout=90, env=dict(os.environ, LSPDRIVE_TMP=LSP_TMP))
+        return json.loads(p.stdout)
+    except Exception as ex:          # noqa: a session that cannot be used is counted, not judged (C08's matter)
+        return {"unusable": "%s: %s" % (type(ex).__name__, ex)}
+
+
+def lsp_observe(out, script, marks):
+    """per touch: ({path: sorted published diagnostics [l0,c0,l1,c1,msg]}, {path: [symbol names] | None});
+    None when the session cannot be used (hang, crash, unanswered request: C08's matter)."""
+    if out.get("unusable") or out.get("timed_out") or out.get("unanswered") or out.get("server_exited") or out.get("crashed"):
+        return None
+    resp = {e["step"]: e for e in out["log"] if e.get("ev") == "response" and e.get("step", -1) >= 0}
+    snaps, cur, k = [], {}, -1
+    for e in out["log"]:
+        if e.get("ev") == "sent" and e.get("what") in ("didOpen", "didChange"):
+            if k >= 0:
+                snaps.append(dict(cur))          # everything published before the next notification was sent
+            k += 1
+        elif e.get("ev") == "publish":
+            cur[e["path"]] = sorted([list(d["range"]) + [d["message"]] for d in e["diagnostics"]])
+    if k >= 0:
+        snaps.append(dict(cur))
+    if len(snaps) != len(marks):
+        return None
+    res = []
+    for k, diags in enumerate(snaps):
+        syms = {}
+        for q, stp in marks[k].items():
+            e = resp.get(stp)
+            if e is None or "result" not in e:
+                return None
+            r = e["result"]
+            syms[q] = None if r is None else [x.get("name") for x in r]
+        res.append((diags, syms))
+    return res
+
+
+def offsets_to_lsp(text, a, b):
+    """byte offsets -> [l0, c0, l1, c1] (ASCII texts, '\n' line breaks: the generators of this group)"""
+    def conv(o):
+        pre = text[:o]
+        return [pre.count("\n"), len(pre) - (pre.rfind("\n") + 1)]
+    return conv(a) + conv(b)
